@@ -7,6 +7,7 @@ bytes, the configuration) with the small reference encoders/decoders below or in
 against the Lean model -- so that "model and code disagree" and "the code violates the property"
 are reported separately.  An oracle never demands more than the property states.
 """
+import re
 import struct
 
 import gen
@@ -122,9 +123,14 @@ def adapt_of(elems):
     """the `.adapt` rendering (PROTOCOL.md §5 ADAPT) of an iterator whose next()-driven list is elems"""
     j = lambda xs: ",".join(xs) if xs else "-"
     n = len(elems)
-    return ";".join([str(n), elems[-1] if elems else "none", j(elems[1:]),
+    last = elems[-1] if elems else "none"
+    ks = range(min(n, 20) + 1)
+    return ";".join([str(n), last, j(elems[1:]),
                      elems[2] if n > 2 else "none", j(elems[0::2]), elems[2] if n > 2 else "none",
-                     str(max(n - 1, 0)), str(max(n - 1, 0)), j(elems), str(n)])
+                     str(max(n - 1, 0)), str(max(n - 1, 0)), j(elems), str(n),
+                     # parts 11, 12: next() k times, then count() / last(), k = 0 .. min(n, 20)
+                     ",".join(str(n - k) for k in ks),
+                     "|".join(last if k < n else "none" for k in ks)])
 
 
 def elems_of(V, key):
@@ -238,6 +244,7 @@ def written_failures(I, cfg, out):
 
 def rt_common(I, cfg, out, count=None):
     written_failures(I, cfg, out)
+    out.extend(path_failures(I))
     if I.get("rt.res") != "ok":
         out.append(f"builder accepted (size={I.get('size')}) but the matching parser says rt.res={I.get('rt.res')}")
         return False
@@ -417,6 +424,17 @@ def size_of(I):
     return int(s[3:]) if s.startswith("ok:") else None
 
 
+def path_failures(I):
+    """the same builder through the method a caller writes on the concrete type (`b.write_into(..)`,
+    which an inherent fast path may shadow) and through the trait (`RtcpPacketWriterExt::write_into`,
+    what generic code and `dyn` callers reach): one configuration, one result"""
+    out = []
+    for k, v in sorted(I.items()):
+        if (k.endswith(".trait_same") or k == "size_trait_same") and v != "true":
+            out.append(f"calling through the trait and calling the method on the concrete builder type differ: {k}={v}")
+    return out
+
+
 def rewrite_failures(I):
     """writing the same builder again into the same buffer, after the caller changed bytes 8..n of
     it, must give the same bytes again (C06: the size written is the size announced, on every call;
@@ -483,7 +501,7 @@ def oracle_C06(ctx, i):
             if r != want: out.append(f"size={s}, buffer {L}: write_into returned {r}, expected {want}")
         elif s.startswith("err:") and r != s:
             out.append(f"size={s} but write_into returned {r}")
-    return out + rewrite_failures(I)
+    return out + rewrite_failures(I) + path_failures(I)
 
 
 def canon_image(cfg, b):
@@ -513,7 +531,7 @@ def oracle_C07(ctx, i):
             d = next((x for x in range(min(len(got), len(want))) if got[x] != want[x]), min(len(got), len(want)))
             out.append(f"bytes written differ from the RFC image at offset {d}: wrote {got[max(0,d-4):d+8].hex()} image {want[max(0,d-4):d+8].hex()}")
             break
-    return out
+    return out + path_failures(I)
 
 
 def oracle_C16(ctx, i):
@@ -563,7 +581,7 @@ def oracle_C17(ctx, i):
         else:
             if after != before:
                 out.append(f"failed write ({r}) modified the buffer")
-    return out + rewrite_failures(I)
+    return out + rewrite_failures(I) + path_failures(I)
 
 
 # ------------------------------------------------------------------------------------------------
@@ -627,8 +645,10 @@ def oracle_C08(ctx, i):
     return out
 
 
-def c18_err(err, kind, b, out, tag):
-    """err: rendering after 'err:'"""
+def c18_err(err, kind, b, out, tag, field_truth_only=False):
+    """err: rendering after 'err:'.  field_truth_only: the error does not come from a parser run on
+    the bytes (a conversion between two typed variants answers with the mismatch at once), so only
+    what the error says is judged, not which error a parser would have to give first"""
     k = kind_name(kind)
     name, _, args = err.partition("(")
     args = args.rstrip(")").split(",") if args else []
@@ -655,6 +675,7 @@ def c18_err(err, kind, b, out, tag):
     elif name == "TooLarge":
         e, a = int(args[0]), int(args[1])
         if not e < a: out.append(f"{tag}{err}: expected is not smaller than actual")
+    if field_truth_only: return
     # short input
     if mn is not None and k not in ("compound",) and L < mn:
         if err != f"Truncated({mn},{L})": out.append(f"{tag}{L} bytes < minimum {mn} reported as {err}")
@@ -676,6 +697,13 @@ def oracle_C18(ctx, i):
         r = I.get(p + "res", "")
         if r.startswith("err:"):
             c18_err(r[4:], kind, b, out, p)
+        if kind_name(kind) in ("packet", "unknown"):
+            # every conversion out of the generic / unknown view is a typed parser's verdict on the same bytes
+            for k, v in I.items():
+                m = re.match(r"^%s(?:typed|conv|convo|as|aso|pfrom\.as|pfrom\.aso)\.([a-z]+)$" % re.escape(p), k)
+                if m and m.group(1) in KIND_MIN and isinstance(v, str) and v.startswith("err:"):
+                    from_typed = kind_name(kind) == "packet" and I.get(p + "variant", "unknown") != "unknown" and "typed." not in k
+                    c18_err(v[4:], m.group(1), b, out, k + "=", field_truth_only=from_typed)
         if kind == "compound" and r == "ok":
             # errors yielded by the iterator are the generic parser's errors about that tile
             ts = ref_tiling(b) or []
@@ -931,6 +959,13 @@ def oracle_C12(ctx, i):
                 for cv in ("as", "aso"):
                     if f"{cv}.{k}" in I and f"typed.{k}" in T and I[f"{cv}.{k}"] != T[f"typed.{k}"]:
                         out.append(f"Unknown {cv}<{k}>={I[f'{cv}.{k}']} but {k}::parse={T[f'typed.{k}']} on the same bytes")
+    if meta.get("op") == "parse":
+        for k in KNOWN:
+            for cv in ("as", "aso"):
+                if f"pfrom.{cv}.{k}" in I and I[f"pfrom.{cv}.{k}"] != I.get(f"{cv}.{k}"):
+                    out.append(f"Packet::from(unknown) then {cv}<{k}> = {I[f'pfrom.{cv}.{k}']} but Unknown {cv}<{k}> = {I.get(f'{cv}.{k}')}")
+        if "pfrom.variant" in I and I["pfrom.variant"] != I.get("variant"):
+            out.append(f"Packet::from(view) is a {I['pfrom.variant']} packet, the view came out of a {I.get('variant')} packet")
     for p, kind, b in view_prefixes(meta):
         if kind != "packet" or len(b) < 4: continue
         V = pfx(I, p)
@@ -1033,7 +1068,7 @@ def oracle_C14(ctx, i):
     cfg = meta["cfg"]
     ms = cfg["members"]
     s = I.get("size", "")
-    out = []
+    out = path_failures(I)
     valid = all(not gen.violations(m) for m in ms)
     nonlast_pad = any(gen.eff_padding(m) > 0 for m in ms[:-1])
     should = valid and not nonlast_pad
@@ -1246,10 +1281,10 @@ def oracle_C20(ctx, i):
     g = meta.get("group")
     if g is not None and g == i:
         # the canonical call sequence itself: bytes and size are those of the final configuration
-        return oracle_C07(ctx, i) + oracle_C16(ctx, i)
-    if g is None: return []
+        return oracle_C07(ctx, i) + oracle_C16(ctx, i) + path_failures(I)
+    if g is None: return path_failures(I)
     J = ctx.I[g]
-    out = []
+    out = path_failures(I)
     cfg = meta["cfg"]
     if I.get("size") != J.get("size"):
         out.append(f"size {I.get('size')} for call sequence [{meta['style']}] but {J.get('size')} for the canonical sequence")
